@@ -94,6 +94,20 @@ func metricEngine(seed uint64, tier string, _ []string) {
 		var x int160.T
 		x.Xor(&ia, &ib)
 		emit("xor %s %s => %s", hx(a), hx(b), hx(x.Bytes()))
+		// the receiver may be one of the operands (or both): same result as with a fresh receiver
+		ra, rb, rab := ia, ib, ia
+		ra.Xor(&ra, &ib)
+		rb.Xor(&ia, &rb)
+		rab.Xor(&rab, &rab)
+		if ra != x {
+			emit("oracle C18 xor-aliased-receiver:first-operand a=%s b=%s got=%s want=%s", hx(a), hx(b), hx(ra.Bytes()), hx(x.Bytes()))
+		}
+		if rb != x {
+			emit("oracle C18 xor-aliased-receiver:second-operand a=%s b=%s got=%s want=%s", hx(a), hx(b), hx(rb.Bytes()), hx(x.Bytes()))
+		}
+		if !rab.IsZero() {
+			emit("oracle C18 xor-aliased-receiver:both-operands a=%s got=%s", hx(a), hx(rab.Bytes()))
+		}
 		emit("cmp %s %s => %d", hx(a), hx(b), ia.Cmp(ib))
 		d1, d2 := ia.Distance(ib), ib.Distance(ia)
 		emit("distcmp %s %s %s => %d", hx(a), hx(b), hx(base), ia.Distance(int160.FromByteArray(arr20(base))).Cmp(ib.Distance(int160.FromByteArray(arr20(base)))))
